@@ -167,6 +167,77 @@ def scenario(ck, c, rnd, mjs, tight, scale):
     return True
 
 
+def generic_check(ck, path, mjs, tight, tag, single=False):
+    """the clauses that need no knowledge of how the input was made: continuity, end points / closedness, no kinks, distance bound, single segment unchanged"""
+    closed = path.isclosed()
+    size = max(abs(z) for sg in path for z in sg.bpoints()) + 1
+    ext = max(abs(z - path[0].start) for sg in path for z in sg.bpoints()) + 1e-9
+    ck.case(fp=('generic', tag, repr(path), mjs, tight), nontrivial=True)
+
+    def bad(key, what, exp=None, obs=None):
+        ck.disagree(key='smoothed_path/' + key, site='svgpathtools/smoothing.py:smoothed_path/smoothed_joint', what='%s [%s, maxjointsize=%r tightness=%r]\ninput %r' % (what, tag, mjs, tight, path),
+                    case={'tag': tag, 'mjs': mjs, 'tight': tight, 'path': repr(path)}, expected=exp, observed=obs, driver='generic')
+        return False
+    try:
+        sm = sp.smoothed_path(path, maxjointsize=mjs, tightness=tight)
+    except Exception as e:      # noqa
+        return bad('raises-' + type(e).__name__, 'raised %r' % e, 'a path', repr(e))
+    if single:
+        if list(sm) != list(path):
+            return bad('single-segment-changed', 'a single segment was not returned unchanged: %r' % sm, repr(path), repr(sm))
+        return True
+    m = len(sm)
+    for i in range(m - 1):
+        if not (abs(sm[i].end - sm[i + 1].start) <= 1e-9 * size):
+            return bad('not-continuous', 'pieces %d and %d do not join: %r vs %r' % (i, i + 1, sm[i].end, sm[i + 1].start))
+    if closed and not (abs(sm[-1].end - sm[0].start) <= 1e-9 * size):
+        return bad('closed-path-opened', 'the result is not closed: %r vs %r' % (sm[-1].end, sm[0].start))
+    if not closed and (not (abs(sm[0].start - path[0].start) <= 1e-9 * size) or not (abs(sm[-1].end - path[-1].end) <= 1e-9 * size)):
+        return bad('endpoints-moved', 'end points %r / %r, input %r / %r' % (sm[0].start, sm[-1].end, path[0].start, path[-1].end),
+                   [str(path[0].start), str(path[-1].end)], [str(sm[0].start), str(sm[-1].end)])
+    for i in list(range(m - 1)) + ([m - 1] if closed else []):
+        try:
+            u, v = sm[i].unit_tangent(1), sm[(i + 1) % m].unit_tangent(0)
+        except Exception as e:      # noqa
+            return bad('tangent-undefined', 'unit tangent at joint %d of the result raised %r' % (i, e))
+        if not (abs(u - v) <= 1e-6):
+            return bad('kink-left/' + ('closing-joint' if i == m - 1 else 'joint'), 'kink at joint %d of the result: tangents %r / %r' % (i, u, v), 'equal tangents', [str(u), str(v)])
+    for i in range(m):
+        for t in (0.25, 0.5, 0.75):
+            d = path.radialrange(sm[i].point(t))[0][0]
+            if not (d <= mjs + 1e-9 * size):
+                return bad('moved-too-far', 'point %r of the result is %r away from the input' % (sm[i].point(t), d), mjs, d)
+    return True
+
+
+def extra_families(ck, rnd, quick):
+    """inputs outside the scenario generator: a single closed cubic; open paths whose ends nearly meet, far from the origin; cubics whose
+    handle at a kinked joint has zero length (the tangent there is the direction to the next control point)"""
+    combos = [(3, 1.99), (0.7, 1.5), (0.3, 1.0)]
+    for O in (0j, 100 + 100j, -2500 + 40j):
+        for sc in (1.0, 10.0):
+            # teardrop: one cubic returning to its start with a corner there
+            for (c1, c2) in ((3 + 4j, -3 + 4j), (5 + 1j, 1 + 5j), (4 - 4j, 6 + 2j)):
+                tear = sp.Path(sp.CubicBezier(O, O + sc * c1, O + sc * c2, O))
+                generic_check(ck, tear, 3, 1.99, 'single closed cubic', single=True)
+            # nearly closed open polygons / mixed paths: corner at the gap, first segment a Line
+            for gap in (5e-4, 1e-5, 1e-7):
+                for verts in ((0j, 8 + 0j, 8 + 6j, 1 + 7j), (0j, 6 - 3j, 9 + 4j, 2 + 9j, -3 + 4j)):
+                    V = [O + sc * v for v in verts]
+                    segs = [sp.Line(V[i], V[i + 1]) for i in range(len(V) - 1)]
+                    last_end = V[0] + gap * (1 + 0.5j) if abs(O) > 0 else V[0] + gap * 1e-3 * (1 + 0.5j)
+                    segs.append(sp.Line(V[-1], last_end) if len(verts) % 2 == 0 else sp.CubicBezier(V[-1], V[-1] + sc * (-2 - 1j), last_end + sc * (-1 + 2j), last_end))
+                    for mjs, tight in combos[:2]:
+                        generic_check(ck, sp.Path(*segs), mjs, tight, 'open path whose ends nearly meet (gap %g)' % gap)
+            # zero-length handle at a kinked joint
+            for (a, b, c2, e) in ((0j, 6 + 0j, 7 + 4j, 12 + 5j), (0j, 5 + 2j, 3 + 7j, -2 + 9j), (0j, 4 - 3j, 9 - 1j, 10 + 6j)):
+                a, b, c2, e = (O + sc * z for z in (a, b, c2, e))
+                for mjs, tight in combos:
+                    generic_check(ck, sp.Path(sp.Line(a, b), sp.CubicBezier(b, b, c2, e)), mjs * sc, tight, 'line -> cubic with control1 == start')
+                    generic_check(ck, sp.Path(sp.CubicBezier(e, c2, b, b), sp.Line(b, a)), mjs * sc, tight, 'cubic with control2 == end -> line')
+                    generic_check(ck, sp.Path(sp.CubicBezier(e, c2, b, b), sp.CubicBezier(b, b, 2 * b - c2 + sc * (3 + 1j), a)), mjs * sc, tight, 'cubic -> cubic, both handles at the joint of zero length')
+
+
 def run(ck):
     rnd = random.Random(ck.seed)
     quick = ck.tier == 'quick'
@@ -183,6 +254,7 @@ def run(ck):
         for (mjs, tight, scale) in (combos + combos if not quick else [combos[i % 6], combos[(i + 1) % 6], combos[(i + 4) % 6]]):
             scenario(ck, c, rnd, mjs, tight, scale)
     ck.sample('scenario', cases[0])
+    extra_families(ck, rnd, quick)
 
 
 def replay(rec):
